@@ -273,6 +273,10 @@ class InterpProp(Prop):
             if op[0] == 'queue' and op[1] == 0:
                 t = prev_world['slots'][0]['time'] if prev_world else 0
                 gh.add(False, t + ev_delay(op[2]), op[2])
+            elif op[0] == 'queuemany' and op[1] == 0:
+                t = prev_world['slots'][0]['time'] if prev_world else 0
+                for e in op[2]:
+                    gh.add(False, t + ev_delay(e), e)
             elif op[0] == 'exec' and op[1] == 0:
                 cfg0 = prev_world['slots'][0]['config'] if prev_world else []
                 info = {'k': k, 'sc': sc, 'trans': trans, 'cfg0': cfg0, 'r': r, 'clock': op[2],
